@@ -40,11 +40,9 @@ func (r *ReferenceStorage) CheckAndSetReference(ref, old *plumbing.Reference) er
 		return r.SetReference(ref)
 	}
 
-	tmp, err := r.temporal.Reference(old.Name())
-	if err == plumbing.ErrReferenceNotFound {
-		tmp, err = r.ReferenceStorer.Reference(old.Name())
-	}
-
+	// Reference gives the view of this transaction: a reference removed in
+	// it is not found, even if the base storage still has it.
+	tmp, err := r.Reference(old.Name())
 	if err != nil {
 		return err
 	}
